@@ -53,3 +53,6 @@ mod zipcrypto;
 /// zip = "=0.6.6"
 /// ```
 pub mod unstable;
+
+#[cfg(zip_rs_zip_verif)]
+pub mod verif_hooks;
